@@ -871,10 +871,31 @@ class MapLoop:
         return tuple(env.get(n) for n in names)
 
 
+def _lookup_spec(lid):
+    """exact loop id first; otherwise bind BY SHAPE: the registered spec with the same fingerprint (loop kind + iterable /
+    condition text) whose static ordinal equals the number of loops of that shape entered so far on this path - so that
+    moving a loop into a helper method or renaming the method does not lose its invariant.  (A spec bound to the wrong loop
+    can only fail its own entry/preservation obligations, never prove anything it should not.)"""
+    c = ctx()
+    parts = lid.split('#')
+    fp = parts[1] if len(parts) > 2 else None
+    cnt = c.ghost.setdefault('loops_entered', {})
+    dyn = cnt.get(fp, 0)
+    cnt[fp] = dyn + 1
+    fac = LOOPSPEC.get(lid)
+    if fac is not None or fp is None:
+        return fac
+    cands = [k for k in LOOPSPEC if k.split('#')[1:2] == [fp] and k.rsplit('#', 1)[-1] == str(dyn)]
+    if len(cands) == 1:
+        c.note('loop %s bound by shape to the invariant registered for %s' % (lid, cands[0]))
+        return LOOPSPEC[cands[0]]
+    return None
+
+
 def loop(lid, iterable, env):
     if hasattr(iterable, '__vc_loop__'):
         it = iterable.__vc_loop__()
-        fac = LOOPSPEC.get(lid)
+        fac = _lookup_spec(lid)
         if fac is None:
             # no invariant for this loop shape (the loop was added or restructured): everything after it is undecided
             _nospec(lid)
@@ -887,7 +908,9 @@ def _nospec(lid):
 
 
 def wloop(lid, env):
-    fac = LOOPSPEC.get(lid)
+    if ctx() is None or ctx().mode != 'sym':
+        return None
+    fac = _lookup_spec(lid)
     if fac is None:
         return None
     return fac(lid, None, env)
